@@ -1670,9 +1670,9 @@ class Interp:
     def s_For(self, n):
         ordinal = self.frame.loop_ordinal
         self.frame.loop_ordinal += 1
-        if n.orelse:
-            raise Unsupported("for/else")
         it = self.iter_seq(self.eval(n.iter))
+        if n.orelse and not isinstance(it, PyList):
+            raise Unsupported("for/else over a symbolic sequence")
         spec = None
         if self.frame.closure is not None:
             q = self.frame.closure.qualname
@@ -1687,6 +1687,7 @@ class Interp:
         if isinstance(it, PyList):
             # concrete iterable: exact unrolling (complete), even when an invariant is available
             self.loop_kinds.append(("concrete", len(self.guards)))
+            broke = False
             try:
                 for x in list(it.items):
                     self.assign(n.target, x)
@@ -1695,9 +1696,12 @@ class Interp:
                     except ContinueSignal:
                         continue
                     except BreakSignal:
+                        broke = True
                         break
             finally:
                 self.loop_kinds.pop()
+            if n.orelse and not broke:
+                self.exec_block(n.orelse)  # for ... else: runs when the loop was not left by `break`
             return
         if spec is not None:
             return spec.run(self, n, as_seq2(it))
